@@ -29,6 +29,24 @@ Definition log_table_ok (m : tmodule) : bool :=
 Lemma log_tables_ok : forallb log_table_ok all_tables = true.
 Proof. vm_compute. reflexivity. Qed.
 
+(* the device table covers what the pack tables advertise: every device key of a shipped log table that has a user demand item
+   (Ud<key>) is a row of const.DEVICES - except the ones the facade has never handled, listed here so that any NEW gap (a row that
+   disappears, a new device in a table) breaks the proof *)
+Definition known_unhandled_devices : list string :=
+  ["L120"; "Fb"; "TvLift"; "SpkrLift"; "Valve"; "SpeedVSP1"; "SpeedVSP2"; "SpeedVSP3"; "SpeedVSP4"; "SpeedVSP5"].
+Definition devices_covered (m : tmodule) : bool :=
+  match m_kind m with
+  | KLog => forallb (fun d => negb (mem_s (String.append "Ud" d) (m_demands m)) || mem_s d device_keys || mem_s d known_unhandled_devices) (m_devices m)
+  | _ => true end.
+Lemma all_devices_covered : forallb devices_covered all_tables = true.
+Proof. vm_compute. reflexivity. Qed.
+(* and the exception list is tight: each entry really is advertised with a demand somewhere and really is not handled *)
+Lemma known_unhandled_tight :
+  forallb (fun d => negb (mem_s d device_keys) &&
+                    existsb (fun m => match m_kind m with KLog => mem_s d (m_devices m) && mem_s (String.append "Ud" d) (m_demands m) | _ => false end) all_tables)
+          known_unhandled_devices = true.
+Proof. vm_compute. reflexivity. Qed.
+
 Lemma class_of_in d c : class_of devices_table d = Some c -> In d device_keys.
 Proof. unfold device_keys. induction devices_table as [|[[[[k n] kp] sk] cl] r IH]; cbn [class_of map fst]; [discriminate|].
   destruct (String.eqb d k) eqn:E; [apply String.eqb_eq in E; subst; left; reflexivity|]. intros H. right. apply IH. exact H. Qed.
